@@ -58,20 +58,21 @@ type Item struct {
 }
 
 type Run struct {
-	Prop     string
-	Tier     string
-	Eng      *Engine
-	Obls     []*Obligation
-	Funcs    []string
-	Notes    []string
-	Errors   []string // functions that could not be brought under the engine (not claimed)
-	Bounded  []string
-	Assume   map[string]bool
-	SmtDir   string
-	OutDir   string
-	Workers  int
-	results  map[string]*FuncResult
-	pending  []pendingVC
+	Prop    string
+	Tier    string
+	Eng     *Engine
+	Obls    []*Obligation
+	Funcs   []string
+	Notes   []string
+	Errors  []string // functions that could not be brought under the engine (not claimed)
+	Bounded []string
+	Assume  map[string]bool
+	SmtDir  string
+	OutDir  string
+	Root    string
+	Workers int
+	results map[string]*FuncResult
+	pending []pendingVC
 }
 
 func (r *Run) assume(s string) { r.Assume[s] = true }
@@ -92,6 +93,10 @@ func (r *Run) runFunc(it Item) {
 	depth := it.Depth
 	if depth == 0 {
 		depth = 4
+	}
+	if r.Eng.contracts[it.Func] == nil {
+		r.Errors = append(r.Errors, it.Func+": no contract found for a function of the plan")
+		return
 	}
 	fr := r.Eng.verifyFunc(it.Func, true, depth)
 	r.results[it.Func] = fr
@@ -158,20 +163,21 @@ func checkMain(args []string) int {
 	}
 	prop, tier := args[0], args[1]
 	repo := envOr("VERIF_REPO", "/repo")
-	root := envOr("VERIF_ROOT", "/verif")
+	in := envOr("VERIF_ROOT", "/verif")
+	root := envOr("VERIF_OUT", in)
 	t0 := time.Now()
 	plan, ok := plans[prop]
 	if !ok {
 		fmt.Printf("no check for %s\n", prop)
 		return 2
 	}
-	eng, err := loadEngine(repo, envOr("VERIF_CONTRACTS", filepath.Join(root, "contracts")))
+	eng, err := loadEngine(repo, filepath.Join(in, "contracts"))
 	if err != nil {
 		fmt.Println("cannot load", repo, ":", err)
 		return 2
 	}
 	run := &Run{Prop: prop, Tier: tier, Eng: eng, Assume: map[string]bool{}, SmtDir: filepath.Join(os.TempDir(), "govc_smt_"+prop),
-		OutDir: root, Workers: 16, results: map[string]*FuncResult{}}
+		OutDir: root, Root: in, Workers: 16, results: map[string]*FuncResult{}}
 	os.RemoveAll(run.SmtDir)
 	for _, it := range plan.Items {
 		if it.Plugin != "" {
@@ -181,7 +187,7 @@ func checkMain(args []string) int {
 		run.runFunc(it)
 	}
 	run.solveAll()
-	known, err := loadKnown(envOr("VERIF_KNOWN", filepath.Join(root, "known_findings.jsonl")))
+	known, err := loadKnown(filepath.Join(in, "known_findings.jsonl"))
 	if err != nil {
 		fmt.Println(err)
 		return 2
@@ -337,14 +343,14 @@ func writeReplay(dir, prop string, o *Obligation, why string) string {
 		out = out[:20000] + "\n...(truncated)"
 	}
 	rp := map[string]any{
-		"property":   prop,
-		"obligation": o.Name,
-		"kind":       o.Kind,
-		"at":         o.Pos,
-		"status":     o.Status,
-		"why":        why,
-		"solver":     o.Solver,
-		"model":      o.Model,
+		"property":      prop,
+		"obligation":    o.Name,
+		"kind":          o.Kind,
+		"at":            o.Pos,
+		"status":        o.Status,
+		"why":           why,
+		"solver":        o.Solver,
+		"model":         o.Model,
 		"solver_output": out,
 	}
 	b, _ := json.MarshalIndent(rp, "", " ")
